@@ -584,6 +584,14 @@ impl<'a, 'ast> Visit<'ast> for Ctx<'a> {
             }
             _ => {}
         }
+        if let syn::Stmt::Local(l) = s {
+            // E7: `let &x = e;` -> `let x__r = e; let x = *x__r;`
+            let lets = self.ref_pats(&l.pat, false);
+            if !lets.is_empty() {
+                let (_, e) = self.src.range(l.span());
+                self.add(e, e, format!(" {lets}"), "E7 reference pattern");
+            }
+        }
         syn::visit::visit_stmt(self, s);
     }
 
@@ -653,6 +661,17 @@ impl<'a, 'ast> Visit<'ast> for Ctx<'a> {
                 let m = mc.method.to_string();
                 if m == "get_unchecked" || m == "get_unchecked_mut" || m == "unwrap_unchecked" {
                     self.site("unchecked_call");
+                }
+                if (m == "as_mut" || m == "as_ref") && mc.args.is_empty() && !self.item.no_ptr_rule {
+                    // E5: `P.add(e).as_mut()` on a pointer taken from a Vec is never null -> `Some(&mut X[e])`
+                    // (the bound e < X.len() becomes an obligation: it is the UB condition of the later dereference)
+                    if let Some((base, idx)) = self.is_ptr_add(&mc.receiver) {
+                        let (a, b) = self.src.range(e.span());
+                        let r = if m == "as_mut" { "&mut " } else { "&" };
+                        self.add(a, b, format!("Some({r}{base}[{idx}])"), "E5 pointer as_mut/as_ref -> Some(&mut X[e])");
+                        self.site("e5_access");
+                        return;
+                    }
                 }
                 if self.item.wrap.contains(&m) || self.item.wrap.contains(&format!("&{m}")) {
                     // E12: RECV.m(ARGS) -> vx_m(RECV, ARGS)   (`&m` in the list: the receiver is auto-referenced, vx_m(&RECV, ARGS))
